@@ -31,8 +31,11 @@ Notes
   `^`), C03 (loops over multi-character literal groups), C06 (SMT mode C06: real entry points on solver witnesses
   must return valid char-boundary ranges; `\\q{..}` members under `iv`), C15 (`c10_backref_icase_fwd` joined C15's
   quick tier under index_safe), C18/C17/C20 (harnesses made feasible at all: String capacity model,
-  index-positions build, per-N bounds).  Every "not caught" line that is followed by a "caught" line for the same
-  check records the state before the strengthening.
+  index-positions build, per-N bounds).  The table shows the LATEST evaluation per (change, check); the first evaluations of
+  C16-namedgroups-third-dup, C14-utf16-next-left-pos-offset2, C11-scx-common-inherited, C13-char-arm-question-mark,
+  C04-optional-loop-start-anchored, C09-loop-count-leak-across-matches (harness crate did not compile: exit 2),
+  C15-backref-icase-index-positions, C18-escape-truncating-cast and C12-annexb-class-escape-dash were misses or
+  inconclusive and led to the strengthenings above.
 * C07, C08 and C19 are not claimed (MANIFEST not_applicable); their seeds are kept to document what the
   machinery does NOT see: C08 (parser pre-scan of nested brackets) and C19 (a per-bracket memo behind an atomic)
   are invisible to every check; C07 (AsciiBitmap::set(128)) is reported by the C12/C06 kernel
